@@ -258,8 +258,13 @@ impl Cw20Scen {
             Some(d) => render_download(&d),
             None => "err".to_string(),
         };
+        // the cw2 item (not query-visible; `migrate` reads and writes it)
+        let ver = match cw2::get_contract_version(&self.deps.storage) {
+            Ok(v) => format!("{}@{}", v.contract, v.version),
+            Err(_) => "-".to_string(),
+        };
         format!(
-            "obs pagediff={} supply={} minter={} cap={} bal={} allow={} allowsp={} pallow={} minfo={} logo={}",
+            "obs pagediff={} supply={} minter={} cap={} bal={} allow={} allowsp={} pallow={} minfo={} logo={} ver={}",
             pagediff.join(","),
             supply,
             mn,
@@ -269,7 +274,8 @@ impl Cw20Scen {
             allowsp.join(","),
             pallow.join(","),
             minfo,
-            logo
+            logo,
+            ver
         )
     }
 
